@@ -42,7 +42,8 @@ long nondet_long(void);
 /* ghost state of the model; volatile so that every access is a visible point */
 extern volatile int verif_ctx_saved[4];   /* context of logical thread k is completely saved        */
 extern volatile int verif_wake[4];        /* 0 not runnable; 1 in a run queue; 2 worker handed over  */
-extern volatile int verif_started[4];     /* spawned child may start                                 */
+extern volatile int verif_started[4];
+extern volatile int verif_nrun[4];          /* how many times thread k has been made runnable / handed a worker */     /* spawned child may start                                 */
 
 static inline int verif_tid_of_ctx(myth_context_t c);
 static inline int verif_tid_of_th(void *th);
